@@ -22,10 +22,19 @@ ASSUMPTIONS = ["A-FS", "A-LIB", "A-ALIAS", "A-LOG", "LOC-INJ (hypothesis; refute
 LEVEL_TEXT = ("Deductive proof of representation invariants and round-trip/frame postconditions of every store method (so: all operation sequences), with the location-function lemmas decided separately; "
               "two lemmas are refuted on the current code (open findings), and raw path strings are covered by a bounded stand-in, hence 'other'.")
 DESIGN_REF = "5 (C08)"
-REPLAY = {
+class _Replay(dict):
+    def get(self, key, default=None):
+        if key in self:
+            return self[key]
+        if key.startswith(("LocalFileStore.store_blob#", "LocalFileStore.fetch_blob#", "LocalFileStore.has_blob#")):
+            return "h_store.store_ops"
+        return default
+
+
+REPLAY = _Replay({
     "LocalFileStore.location#LOC-INJ": "h_store.loc_inj",
     "LocalFileStore.location#LOC-INSIDE": "h_store.loc_inside",
-}
+})
 
 
 def specs():
